@@ -1361,7 +1361,7 @@ class Lowering:
             ctx.pre.append('}')
             return '((void)0)'
         tmp = ctx.fn.tmp()
-        ctx.pre.append('%s;' % self.declarator(t, tmp))
+        ctx.pre.append('%s;' % self.declarator(self.strip_cvref(t), tmp))
         ctx.pre.append('if (%s) {' % ce)
         ctx.pre += self.indent(sa.pre + ['%s = %s;' % (tmp, ae)], 1)
         ctx.pre.append('} else {')
